@@ -161,6 +161,21 @@ OPS += [
     ('PUT', '/resource_providers/{uuid}/aggregates',
      '/resource_providers/%s/aggregates' % P1,
      {'resource_provider_generation': 4, 'aggregates': []}, None),
+    # idempotent PUTs naming something that already exists (answered 204 to
+    # an authorised caller): still an update operation
+    ('PUT', '/traits/{name}', '/traits/CUSTOM_PV_T', None, None),
+    ('PUT', '/traits/{name}', '/traits/HW_CPU_X86_AVX2', None, None),
+    ('PUT', '/resource_classes/{name}', '/resource_classes/CUSTOM_PV_A',
+     None, None),
+    ('PUT', '/resource_providers/{uuid}', '/resource_providers/' + P2,
+     {'name': 'pv-fix-two'}, None),
+    ('PUT', '/resource_providers/{uuid}/traits',
+     '/resource_providers/%s/traits' % P1,
+     {'resource_provider_generation': 4, 'traits': [c14.AVX]}, None),
+    ('POST', '/resource_classes', '/resource_classes',
+     {'name': 'CUSTOM_PV_A'}, None),
+    ('POST', '/resource_providers', '/resource_providers',
+     {'name': 'pv-fix-one', 'uuid': P1}, None),
 ]
 
 # rule -> documented operations, transcribed from the policy reference
